@@ -61,6 +61,9 @@ type ev struct {
 
 type c13Case struct {
 	Comp  string    `json:"comp"`
+	X     bool      `json:"x,omitempty"`     // set c13x: sizes in the operations, the model predicts refusals
+	Kind  string    `json:"kind,omitempty"`  // set c13x: chain kind (rtcp-read, rtp-read, rtp-write, rtcp-write)
+	Chain []string  `json:"chain,omitempty"` // set c13x: chain members in BIND order
 	Pkts  []spec    `json:"pkts"`
 	Evs   []ev      `json:"evs,omitempty"`
 	Opt   [2]int    `json:"opt"`
@@ -70,6 +73,7 @@ type c13Case struct {
 	Wrote []int64   `json:"-"`
 	NEmit int       `json:"nemit"`
 	Diff  bool      `json:"diff"`
+	NRef  int       `json:"refused,omitempty"` // calls the component refused with an error (run B)
 }
 
 const (
@@ -80,7 +84,13 @@ const (
 	locExt    = 3
 	locPay    = 4
 	locRead   = 1
+	// caller buffers: large enough for payloads on both sides of every size threshold in the code
+	bufSize = 2048
 )
+
+// payload sizes around the thresholds in the code: pooled buffers of 1460 bytes (rtpbuffer packet
+// factory, gcc leaky bucket pacer), 1472 (1500 - IP/UDP headers), FlexFEC's 1500-byte packet buffers
+var edgeSizes = []int{0, 1, 1459, 1460, 1461, 1462, 1472, 1473, 1488, 1500}
 
 // parts projects a packet onto the four caller-owned parts.
 func parts(h *rtp.Header, p []byte) [4]int64 {
@@ -109,6 +119,7 @@ func wire(h *rtp.Header, p []byte) int64 {
 // caller owns the buffers passed into the component.
 type caller struct {
 	reuse bool
+	x     bool // print the operations of the chain model (set c13x)
 	hdr   *rtp.Header
 	csrc  []uint32
 	ext   []byte
@@ -132,7 +143,7 @@ type held struct {
 }
 
 func newCaller(reuse bool) *caller {
-	return &caller{reuse: reuse, hdr: &rtp.Header{}, csrc: make([]uint32, 15), ext: make([]byte, 16), pay: make([]byte, 1500), rd: make([]byte, 1500)}
+	return &caller{reuse: reuse, hdr: &rtp.Header{}, csrc: make([]uint32, 15), ext: make([]byte, 16), pay: make([]byte, bufSize), rd: make([]byte, bufSize)}
 }
 
 func sameHeader(a, b *rtp.Header) bool {
@@ -178,8 +189,15 @@ func (cl *caller) build(s spec, twcc bool) (*rtp.Header, []byte) {
 	return h, p
 }
 
-func callOp(comp string, h *rtp.Header, p []byte) string {
+func callOp(c *c13Case, h *rtp.Header, p []byte) string {
 	ps := parts(h, p)
+	if c.X {
+		return cq.C("XCall", cq.L([]string{xname(c.Comp)}), cq.L([]string{
+			cq.T(cq.Z(locHdr), cq.Z(ps[0]), cq.Z(12)), cq.T(cq.Z(locCSRC), cq.Z(ps[1]), cq.Z(int64(4*len(h.CSRC)))),
+			cq.T(cq.Z(locExt), cq.Z(ps[2]), cq.Z(int64(len(h.GetExtension(1))))), cq.T(cq.Z(locPay), cq.Z(ps[3]), cq.Z(int64(len(p)))),
+		}))
+	}
+	comp := c.Comp
 
 	return cq.C("Call", comp, cq.L([]string{
 		cq.T(cq.Z(locHdr), cq.Z(ps[0])), cq.T(cq.Z(locCSRC), cq.Z(ps[1])),
@@ -229,9 +247,14 @@ func (cl *caller) scribble() []string {
 	cl.lastH = h.Clone()
 	cl.lastP = append(cl.lastP[:0], cl.pay[:len(cl.lastP)]...)
 
+	sc := "Scribble"
+	if cl.x {
+		sc = "XScribble"
+	}
+
 	return []string{
-		cq.C("Scribble", cq.Z(locHdr), cq.Z(ps[0])), cq.C("Scribble", cq.Z(locCSRC), cq.Z(ps[1])),
-		cq.C("Scribble", cq.Z(locExt), cq.Z(ps[2])), cq.C("Scribble", cq.Z(locPay), cq.Z(ps[3])),
+		cq.C(sc, cq.Z(locHdr), cq.Z(ps[0])), cq.C(sc, cq.Z(locCSRC), cq.Z(ps[1])),
+		cq.C(sc, cq.Z(locExt), cq.Z(ps[2])), cq.C(sc, cq.Z(locPay), cq.Z(ps[3])),
 	}
 }
 
@@ -270,7 +293,7 @@ func (cl *caller) readBuf() []byte {
 		return cl.rd
 	}
 
-	return make([]byte, 1500)
+	return make([]byte, bufSize)
 }
 
 func (cl *caller) scribbleRead(n int) []string {
@@ -283,7 +306,12 @@ func (cl *caller) scribbleRead(n int) []string {
 	}
 	cl.lastR = append(cl.lastR[:0], cl.rd...)
 
-	return []string{cq.C("Scribble", cq.Z(locRead), cq.Z(intern("R|"+string(cl.rd[:n]))))}
+	sc := "Scribble"
+	if cl.x {
+		sc = "XScribble"
+	}
+
+	return []string{cq.C(sc, cq.Z(locRead), cq.Z(intern("R|"+string(cl.rd[:n]))))}
 }
 
 func readCallOp(comp string, raw []byte) string {
@@ -347,25 +375,39 @@ func flatParts(ps [][4]int64) []int64 {
 
 // result of one run
 type runOut struct {
-	outs  [][]int64
-	ops   []string
-	wrote []int64
+	outs    [][]int64
+	ops     []string
+	wrote   []int64
+	refused int
 }
 
 type runner func(c *c13Case, cl *caller, fails *[]cq.ImplFailure) runOut
 
 var runners = map[string]runner{}
 
-func runCase(c c13Case, fails *[]cq.ImplFailure) c13Case {
-	r, ok := runners[c.Comp]
-	if !ok {
-		panic("unknown component " + c.Comp)
+func runnerOf(c *c13Case) runner {
+	key := c.Comp
+	if c.Kind != "" {
+		key = "kind:" + c.Kind
 	}
-	a := r(&c, newCaller(false), fails)
-	b := r(&c, newCaller(true), fails)
+	r, ok := runners[key]
+	if !ok {
+		panic("unknown component " + key)
+	}
+
+	return r
+}
+
+func runCase(c c13Case, fails *[]cq.ImplFailure) c13Case {
+	r := runnerOf(&c)
+	ca, cb := newCaller(false), newCaller(true)
+	ca.x, cb.x = c.isX(), c.isX()
+	a := r(&c, ca, fails)
+	b := r(&c, cb, fails)
 	c.Ops, c.OutA, c.OutB = b.ops, a.outs, b.outs
 	c.Wrote = append(append([]int64{}, a.wrote...), b.wrote...)
 	c.NEmit = len(b.outs)
+	c.NRef = b.refused
 	c.Diff = fmt.Sprint(a.outs) != fmt.Sprint(b.outs)
 
 	return c
@@ -381,6 +423,9 @@ func llz(xs [][]int64) string {
 }
 
 func (c c13Case) toCase(b ...string) cq.Case {
+	if c.NRef > 0 {
+		b = append(b, "refused")
+	}
 	if c.Diff {
 		b = append(b, "B-differs")
 	} else {
@@ -390,12 +435,58 @@ func (c c13Case) toCase(b ...string) cq.Case {
 	for _, o := range c.OutA {
 		n += len(o)
 	}
+	if c.isX() {
+		kind := int64(1)
+		if c.Kind == "" && !opaqueComp[c.Comp] {
+			kind = 0
+		}
+		if c.Kind != "" {
+			b = append(b, "kind-"+c.Kind, "chain-"+strings.Join(c.Chain, "+"))
+		} else {
+			b = append(b, "sized-"+c.Comp)
+		}
+
+		return cq.Case{
+			Coq:  cq.T(cq.Z(kind), cq.L(c.Ops), llz(c.OutA), llz(c.OutB), cq.LZ(c.Wrote)),
+			JSON: c, Buckets: b, Trivial: n == 0,
+		}
+	}
 	b = append(b, "comp-"+c.Comp)
 
 	return cq.Case{
 		Coq:  cq.T(c.Comp, cq.L(c.Ops), llz(c.OutA), llz(c.OutB), cq.LZ(c.Wrote)),
 		JSON: c, Buckets: b, Trivial: n == 0,
 	}
+}
+
+func (c *c13Case) isX() bool { return c.X || c.Kind != "" }
+
+var opaqueComp = map[string]bool{"NackRtx": true, "FlexFec": true, "DumpSender": true, "DumpReceiver": true, "DumpReceiverRtcp": true,
+	"StatsOut": true, "StatsIn": true, "TwccSender": true, "Rtpfb": true}
+
+// operation printers (set c13: Model/Alias.v; set c13x: Model/AliasChain.v)
+func (c *c13Case) emitOp(k int) string {
+	if c.X {
+		return cq.C("XEmit", xname(c.Comp), nat(k))
+	}
+
+	return cq.C("Emit", c.Comp, nat(k))
+}
+
+func (c *c13Case) emitAllOp() string {
+	if c.X {
+		return cq.C("XEmitAll", xname(c.Comp))
+	}
+
+	return cq.C("EmitAll", c.Comp)
+}
+
+func (c *c13Case) dropOp() string {
+	if c.X {
+		return cq.C("XDrop", xname(c.Comp))
+	}
+
+	return cq.C("Drop", c.Comp)
 }
 
 func hexs(b []byte) string { return hex.EncodeToString(b) }
@@ -412,14 +503,19 @@ func genPkts(r *rand.Rand, n int, constLen bool, step1 bool) []spec {
 	if r.Intn(3) == 0 {
 		ncsrc = 0
 	}
+	if r.Intn(4) == 0 {
+		payLen = edgeSizes[r.Intn(len(edgeSizes))]
+	}
 	for i := range out {
 		s := spec{Seq: seq, Marker: r.Intn(4) == 0, PT: uint8(96 + r.Intn(8)), PayLen: payLen, CSRC: ncsrc, Ext: next} //nolint:gosec
 		if !constLen {
-			switch r.Intn(6) {
+			switch r.Intn(8) {
 			case 0:
 				s.PayLen = 0
 			case 1:
 				s.PayLen = 1200 + r.Intn(200)
+			case 2, 3:
+				s.PayLen = edgeSizes[r.Intn(len(edgeSizes))]
 			default:
 				s.PayLen = 1 + r.Intn(80)
 			}
@@ -529,11 +625,19 @@ func main() {
 	r := o.Rand()
 	var fails []cq.ImplFailure
 	set := &cq.Set{Name: "c13", Import: "IV.Check.C13Check", CaseType: "c13_case", Checks: []string{"c13_mismatches", "c13_spec_failures"}}
-	sets := []*cq.Set{set}
+	xset := &cq.Set{Name: "c13x", Import: "IV.Check.C13ChainCheck", CaseType: "c13x_case", Checks: []string{"c13x_mismatches", "c13x_spec_failures"}}
+	sets := []*cq.Set{set, xset}
+	add := func(c c13Case, b ...string) {
+		if c.isX() {
+			xset.Cases = append(xset.Cases, c.toCase(b...))
+		} else {
+			set.Cases = append(set.Cases, c.toCase(b...))
+		}
+	}
 	if o.Replay != "" {
 		var c c13Case
 		cq.LoadReplay(o.Replay, &c)
-		set.Cases = append(set.Cases, runCase(c, &fails).toCase("replay"))
+		add(runCase(c, &fails), "replay")
 		cq.Write(o, "replay", sets, nil, fails)
 
 		return
@@ -541,7 +645,7 @@ func main() {
 	for _, f := range o.CorpusFiles() {
 		var c c13Case
 		cq.LoadReplay(f, &c)
-		set.Cases = append(set.Cases, runCase(c, &fails).toCase("corpus"))
+		add(runCase(c, &fails), "corpus")
 	}
 	per := o.Scale(160, 1200)
 	if o.N > 0 { // -n is a total case count (search campaigns)
@@ -558,6 +662,15 @@ func main() {
 				continue
 			}
 			c, b := genCase(r, comp)
+			jobs = append(jobs, job{c, b})
+		}
+		// set c13x: chains, size thresholds with predicted refusals, outgoing RTCP objects
+		for _, kind := range xKinds {
+			c, b := genXCase(r, kind)
+			jobs = append(jobs, job{c, b})
+		}
+		for k := 0; k < 2; k++ {
+			c, b := genXCase(r, "sized")
 			jobs = append(jobs, job{c, b})
 		}
 	}
@@ -580,13 +693,13 @@ func main() {
 	}
 	wg.Wait()
 	for i, j := range jobs {
-		set.Cases = append(set.Cases, res[i].toCase(j.b...))
+		add(res[i], j.b...)
 	}
 	extra := map[string]interface{}{}
 	if o.Tier == "thorough" {
 		fails = append(fails, raceParent(o, extra)...)
 	}
-	cq.Write(o, "one case = one packet history (1..70 packets; payload 0..1400 bytes, 0..3 CSRCs, 0..16 extension bytes, marker/PT variants, sequence numbers "+
+	cq.Write(o, "one case = one packet history (1..70 packets; payload 0..1500 bytes incl. 1459/1460/1461/1462/1472/1473/1488/1500, 0..3 CSRCs, 0..16 extension bytes, marker/PT variants, sequence numbers "+
 		"across the 2^16 wrap) replayed twice through one real component: fresh allocation per packet vs one reused header/CSRC/extension/payload/read buffer "+
 		"scribbled right after every Write/Read returns; emissions (retransmissions after NACKs, FEC packets, paced packets, dump lines, statistics, pops, "+
 		"feedback, reports) recorded as interned content ids; caller buffers compared before/after every call and at the end; non-trivial = something was emitted",
@@ -649,7 +762,11 @@ func raceChild(o *cq.Opts) {
 	for i := 0; i < 40; i++ {
 		for _, comp := range quickComps {
 			c, _ := genCase(r, comp)
-			runners[c.Comp](&c, newCaller(true), &fails)
+			runnerOf(&c)(&c, newCaller(true), &fails)
+		}
+		for _, kind := range append([]string{"sized"}, xKinds...) {
+			c, _ := genXCase(r, kind)
+			runnerOf(&c)(&c, newCaller(true), &fails)
 		}
 	}
 }
